@@ -115,6 +115,101 @@ def fn_body(text, header_regex, what):
     return inline_private_helpers(text, _block_from(text, i, what), what)
 
 
+SIGS = {}
+PINS = os.path.join(os.path.dirname(os.path.abspath(__file__)), "steps_pins.json")
+HOOK_LINE = re.compile(r'#\[cfg\(feature = "verif-hooks"\)\]\s*crate::verif::(?:point|note)\((?:[^()]|\([^()]*\))*\);')
+
+
+def _contexts(body):
+    """for every index of `body`: the tuple of headers of the brace blocks that enclose it.  The header of a
+    block is the text between the previous `;`, `{` or `}` and its `{` (whitespace collapsed): `if cond`,
+    `for x in y`, `let written = (|| -> Result<()>`, `else`, ...; plain blocks (empty header) are dropped,
+    since they do not change what runs."""
+    ctx_at = [None] * (len(body) + 1)
+    stack = []
+    last = -1
+    for i, ch in enumerate(body):
+        ctx_at[i] = tuple(h for h in stack if h)
+        if ch == "{":
+            hdr = re.sub(r"\s+", " ", body[last + 1 : i]).strip()
+            mi = re.search(r"/\*inlined (\w+)\*/", hdr)
+            if mi:
+                hdr = "<inlined %s>" % mi.group(1)     # a spliced-in helper body: a plain block as far as control flow goes
+            stack.append(hdr)
+            last = i
+        elif ch == "}":
+            if stack:
+                stack.pop()
+            last = i
+        elif ch == ";":
+            last = i
+    ctx_at[len(body)] = ()
+    return ctx_at
+
+
+def signature(body, found, what):
+    """what the step list does not show: the control flow around each marker.  (marker, enclosing conditions /
+    loops / closures), every `return` / `break` / `continue` with its position among the markers, and the
+    number of `?` (error exits) between consecutive markers.  Compared with the pinned signature of the
+    source the models were written against: a marker that moved under an `if`, into a loop or behind an
+    early return makes the translator refuse instead of emitting the same list."""
+    hooks = [(m.start(), m.end()) for m in HOOK_LINE.finditer(body)]
+    clean = list(body)
+    for a, b in hooks:
+        for k in range(a, b):
+            if clean[k] not in "{}":
+                clean[k] = " "
+    clean = "".join(clean)
+    if "#[cfg" in clean:
+        raise GenError("%s: conditional compilation inside a translated function (only the verif-hooks yield points are expected)" % what)
+    ctx = _contexts(clean)
+    # helpers spliced in by the inliner: those that contain translated steps are looked into, the others
+    # (e.g. the consistency check, called once) count as one call whose error exit is the `?` on the call
+    with_steps = {h for pos, _ in found for h in ctx[pos] if h.startswith("<inlined ")}
+
+    def opaque(c):
+        return any(h.startswith("<inlined ") and h not in with_steps for h in c)
+
+    def vis(c):
+        return [h for h in c if not h.startswith("<inlined ")]
+
+    marks = [[st, vis(ctx[pos])] for pos, st in found]
+    exits = []
+    for m in re.finditer(r"\b(return|break|continue)\b", clean):
+        if opaque(ctx[m.start()]):
+            continue
+        gap = sum(1 for pos, _ in found if pos < m.start())
+        exits.append([m.group(1), vis(ctx[m.start()]), gap])
+    q = [0] * (len(found) + 1)
+    for m in re.finditer(r"\?(?=[;.)\s,])", clean):
+        if opaque(ctx[m.start()]):
+            continue
+        q[sum(1 for pos, _ in found if pos <= m.start())] += 1
+    return {"markers": marks, "exits": exits, "error_exits_between_markers": q}
+
+
+def check_pins(pin_mode=False):
+    import json
+    if pin_mode:
+        with open(PINS, "w") as f:
+            json.dump(SIGS, f, indent=1, sort_keys=True)
+        return
+    if not os.path.exists(PINS):
+        raise GenError("tools/steps_pins.json is missing (python3 tools/gen_steps.py --pin)")
+    want = json.load(open(PINS))
+    for what, sig in SIGS.items():
+        w = want.get(what)
+        if w is None:
+            raise GenError("%s: no pinned control-flow signature" % what)
+        if w == json.loads(json.dumps(sig)):
+            continue
+        for key in ("markers", "exits", "error_exits_between_markers"):
+            a, b = w[key], json.loads(json.dumps(sig[key]))
+            if a != b:
+                diff = next(((x, y) for x, y in zip(a, b) if x != y), (a[len(b):][:1] or None, b[len(a):][:1] or None)) if isinstance(a, list) else (a, b)
+                raise GenError("%s: the control flow around the translated steps changed (%s): pinned %s, now %s — the step list alone no longer says what the function does" % (what, key, str(diff[0])[:160], str(diff[1])[:160]))
+
+
 def scan(body, table, what, once=()):
     """returns the ordered list of (position, step) for all markers found"""
     found = []
@@ -122,6 +217,7 @@ def scan(body, table, what, once=()):
         for m in re.finditer(rx, body):
             found.append((m.start(), step))
     found.sort()
+    SIGS[what] = signature(body, found, what)
     steps = [s for _, s in found]
     for s in once:
         n = steps.count(s)
@@ -230,7 +326,7 @@ def gen_steps():
     # header slot choice and data write order
     if not re.search(r"let meta_page_id = u64::from\(self\.meta\.meta_page == 0\);", w):
         raise GenError("TxInner::write_data: header slot is no longer `the other slot`")
-    if not re.search(r"for \(page_id, \(ptr, size\)\) in freelist\.pages\.iter\(\)", w):
+    if not re.search(r"for \(page_id, \(ptr, size\)\) in freelist\.pages\.iter\(\) \{", w):
         raise GenError("TxInner::write_data: data pages are no longer written from freelist.pages in order")
 
     # ---- Tx::commit ---------------------------------------------------------------------------
@@ -422,6 +518,7 @@ def gen_sites():
 
 def main():
     gen_steps()
+    check_pins("--pin" in sys.argv)
     gen_sites()
 
 
